@@ -349,6 +349,21 @@ impl Space for SinkSpace {
             }
             other => push(sink, Finding { clause: "harness", symptom: "machinery".into(), detail: other.text() }, &tags, &case),
         }
+        // aftermath: whatever the faulted call left behind in the library (scratch buffers, caches), the NEXT save through
+        // the same entry point into a healthy writer must produce the complete file
+        if s.hard {
+            let mut healthy = FaultySink::new(0, u64::MAX, Mode::ErrNow);
+            let o2 = run_guarded(|| sink_call(&self.fx, c.api, &mut healthy));
+            sink.evaluations += 1;
+            match &o2 {
+                Res::Ok => {
+                    if let Err(e) = self.fx.is_complete_new(wl, &healthy.data) {
+                        push(sink, Finding { clause: "sink-output-complete", symptom: "next-save-after-a-failed-one-incomplete".into(), detail: format!("{}: the healthy save that follows the failed one (writer failed at call {}) returned Ok(()) but its output is not the complete file: {}", c.api, c.i, e) }, &tags, &case);
+                    }
+                }
+                other => push(sink, Finding { clause: "sink-output-complete", symptom: "next-save-after-a-failed-one-fails".into(), detail: format!("{}: the healthy save that follows the failed one: {}", c.api, other.text()) }, &tags, &case),
+            }
+        }
     }
 }
 
@@ -806,7 +821,7 @@ fn run(ctx: &Ctx) -> i32 {
             spaces,
             cfg: PoolCfg { chunk: 8, case_timeout: Duration::from_secs(120), ..Default::default() },
             level: "fault_enumeration",
-            rule: "six injectors, each enumerated completely over its index: (overlap) two path saves to DIFFERENT destinations of the same directory and stem (book.xlsx with book.csv / book.xlsm / book.tmp): save A (4 package-writer APIs) is suspended at each of the 2 hook points it passes between creating its temporary file and writing to it, save B (3 workloads) runs to completion there, A continues; both results are judged by the statement's oracle, destinations absent/old; (sink) every write-call index 0..=N of a fault-free run (N measured per API and per accepted-bytes-per-call) x 4 failure modes; (rlimit) path save in a forked child under RLIMIT_FSIZE=L with SIGXFSZ ignored for every L in 0..=size (small workloads; big ones: see bounds) x destination absent/old; (targets) 10 target scenarios x 8 workloads x destination absent/old; (strace-err) errno injected at the k-th call of every openat(create)/write/pwrite64/rename/close/fsync/ftruncate of the save window of a traced child (window = between two marker openat calls, ordinals taken from a fault-free census run), plus pairs (write k fails AND every unlink fails); (strace-kill) SIGKILL on entry of every system call of the window and of the end marker. Oracle: Err, or Ok with destination == complete new file; a pre-existing destination is byte-identical old or complete new; no panic. distinct_nontrivial = distinct (workload, fault, outcome kind, destination class, directory listing with sizes) observations among the cases whose fault actually fired".into(),
+            rule: "six injectors, each enumerated completely over its index: (overlap) two path saves to DIFFERENT destinations of the same directory and stem (book.xlsx with book.csv / book.xlsm / book.tmp): save A (4 package-writer APIs) is suspended at each of the 2 hook points it passes between creating its temporary file and writing to it, save B (3 workloads) runs to completion there, A continues; both results are judged by the statement's oracle, destinations absent/old; (sink) every write-call index 0..=N of a fault-free run (N measured per API and per accepted-bytes-per-call) x 4 failure modes, each faulted call followed by a healthy save through the same entry point whose output must be complete; (rlimit) path save in a forked child under RLIMIT_FSIZE=L with SIGXFSZ ignored for every L in 0..=size (small workloads; big ones: see bounds) x destination absent/old; (targets) 10 target scenarios x 8 workloads x destination absent/old; (strace-err) errno injected at the k-th call of every openat(create)/write/pwrite64/rename/close/fsync/ftruncate of the save window of a traced child (window = between two marker openat calls, ordinals taken from a fault-free census run), plus pairs (write k fails AND every unlink fails); (strace-kill) SIGKILL on entry of every system call of the window and of the end marker. Oracle: Err, or Ok with destination == complete new file; a pre-existing destination is byte-identical old or complete new; no panic. distinct_nontrivial = distinct (workload, fault, outcome kind, destination class, directory listing with sizes) observations among the cases whose fault actually fired".into(),
             alphabets: json!({"workloads": WLS.iter().map(|w| w.name()).collect::<Vec<_>>(), "destination_before": ["absent", "old"], "sink_apis": SINK_APIS, "sink_modes": MODES.iter().map(|m| m.name()).collect::<Vec<_>>(), "sink_accepts_per_call": SINK_CHUNKS, "target_scenarios": SCENARIOS, "strace_errors": st::error_menu_json(), "fault_free_sizes": p.size, "sink_write_calls": p.sink_calls, "save_window_syscalls": windows}),
             bounds: json!({"rlimit": if thorough {format!("every L in 0..=size for xlsx-write, xlsx-write-light, xlsx-write-64k, csv-small, csv; every {}th L + boundaries for the three encrypted workloads", THOROUGH_CFB_STEP)} else {"every L in 0..=size for xlsx-write, xlsx-write-light, csv-small; boundary L (0,1,2,511..513,n*4096-1..+1,size-8192-1..+1,size-2..size+1) for xlsx-write-64k, csv and the three encrypted workloads".to_string()}, "strace": st::bounds_json(ctx.tier)}),
             exhaustive: caps.is_empty(),
